@@ -89,7 +89,7 @@ func (r *Report) add(rule, key string, st Status, pos, detail string, path ...st
 	return o
 }
 
-func (r *Report) ok(rule, key, pos, detail string)  { r.add(rule, key, Discharged, pos, detail) }
+func (r *Report) ok(rule, key, pos, detail string) { r.add(rule, key, Discharged, pos, detail) }
 func (r *Report) bad(rule, key, pos, detail string, path ...string) {
 	r.add(rule, key, Violated, pos, detail, path...)
 }
@@ -101,7 +101,7 @@ func (r *Report) floor(rule, what string, got, floor int) {
 }
 
 func (r *Report) stat(k string, n int) { r.stats[k] += n }
-func (r *Report) note(s string)       { r.notes = append(r.notes, s) }
+func (r *Report) note(s string)        { r.notes = append(r.notes, s) }
 
 // ---------------------------------------------------------------------------
 // known findings
